@@ -830,8 +830,18 @@ func (s *TreeShapeListener) ExitTable(ctx *parser.TableContext) {
 			}
 		}
 		if len(pks) > 0 {
-			rel.PrimaryKey = &sysl.Type_Relation_Key{
-				AttrName: pks,
+			// a re-opened table keeps the key fields of its earlier blocks
+			if rel.PrimaryKey == nil {
+				rel.PrimaryKey = &sysl.Type_Relation_Key{}
+			}
+			for _, name := range pks {
+				known := false
+				for _, k := range rel.PrimaryKey.AttrName {
+					known = known || k == name
+				}
+				if !known {
+					rel.PrimaryKey.AttrName = append(rel.PrimaryKey.AttrName, name)
+				}
 			}
 		}
 	}
